@@ -640,11 +640,9 @@ func gatherVsClose(kind string) zzmc.Scenario {
 			var gerr error
 			t0 := time.Now()
 			var closeTook time.Duration
-			_ = gw.a.OnCandidate(func(c Candidate) {
-				if closeReturned {
-					fail += "CANDIDATE-EVENT-AFTER-CLOSE-RETURNED "
-				}
-			})
+			// (a candidate event may still be delivered after a plain Close has returned: only GracefulClose waits for the
+			// handlers, which is C11's subject)
+			_ = gw.a.OnCandidate(func(Candidate) {})
 			if ownershipJudged() {
 				zzmc.OwnStart("*ice.Agent", "taskloop.go:", "*ice.CandidatePair", "*ice.candidateBase")
 			}
